@@ -336,6 +336,10 @@ func c05Lib(i int64, seed uint64, r *fw.Rec) {
 			c05Clock(i, seed, r)
 			return
 		}
+		if i%18 == 6 {
+			c05Structure(i, seed, r)
+			return
+		}
 		c05Rebind(i, seed, r)
 		return
 	}
